@@ -31,7 +31,8 @@ Definition check_case (c : case) : list nat :=
   (if wf p then [] else [3%nat]) ++
   (if Bool.eqb (clean p) cl then [] else [4%nat]) ++
   (match snd mi with EndFuel => [5%nat] | _ => [] end) ++
-  (if forallb (fun d => covers (fun_vars d) (fbody d)) (funcs p) && covers (vars_stmt (main p) []) (main p)
+  (if forallb (fun d => covers (fun_vars d) (fbody d)) (funcs p) && covers (vars_stmt (main p) []) (main p) &&
+      forallb (fun c => covers (clo_vars c) (cbody c)) (closures p)
    then [] else [6%nat]).
 
 (* for replays: both observations side by side *)
